@@ -116,6 +116,12 @@ func (sh *SignedHeader) ValidateBasic() error {
 		return ErrProposerAddressMismatch
 	}
 
+	// the signature is verified with the public key carried in the header itself, so that key must be the one
+	// the proposer address is derived from; otherwise anybody could sign under somebody else's address
+	if sh.Signer.PubKey == nil || !bytes.Equal(KeyAddress(sh.Signer.PubKey), sh.Signer.Address) {
+		return ErrProposerAddressMismatch
+	}
+
 	var (
 		bz  []byte
 		err error
